@@ -207,6 +207,10 @@ func (g *G) stDecl() Tri {
 	switch {
 	case t.IsScalar():
 		e := g.gen(t, g.opt.Depth)
+		if t.K == KString && !e.Const {
+			g.needScap()
+			e.E = tf("scap(%s)", e.E)
+		}
 		if !e.Const && g.coin("short") {
 			out = tf("%s := %s", name, e.E)
 			if t.K != KBool && t.K != KString { // make the type explicit: x := T(e)
@@ -328,10 +332,14 @@ func (g *G) stAssign() Tri {
 			return tf("%s %s %s", p.E, []string{"+=", "-=", "*=", "/="}[g.n(0, 3, "fopasop")], g.gen(t, g.opt.Depth-1).E)
 		}
 	case t.K == KString:
-		if g.coin("sopas") && g.trip <= 8 {
+		// every assignment to a string variable goes through scap(): statements may run
+		// many times (loops, repeated calls), and s = s + s would double the output volume each time
+		g.needScap()
+		if g.coin("sopas") {
 			g.feat("string-op")
-			return tf("%s += %s", p.E, g.gen(t, 1).E)
+			return lines(tf("%s += %s", p.E, g.gen(t, 1).E), tf("%s = scap(%s)", p.E, p.E))
 		}
+		return tf("%s = scap(%s)", p.E, g.gen(t, g.opt.Depth).E)
 	}
 	return tf("%s = %s", p.E, g.gen(t, g.opt.Depth).E)
 }
@@ -798,6 +806,15 @@ func (g *G) stAliasProbe() Tri {
 	return lines(ls...)
 }
 
+// boundedValue is value() with string results capped (see needScap).
+func (g *G) boundedValue(t *Type, d int) Tri {
+	if t.K == KString {
+		g.needScap()
+		return tf("scap(%s)", g.value(t, d))
+	}
+	return g.value(t, d)
+}
+
 func (g *G) stMapOp() Tri {
 	vs := g.varsOf(func(v *Var) bool { return v.T.K == KMap && !(v.Global && g.cur != nil && g.cur.Pure) })
 	if len(vs) == 0 {
@@ -808,7 +825,7 @@ func (g *G) stMapOp() Tri {
 	key := g.gen(v.T.Key, 2).E
 	switch g.n(0, 4, "mapOp") {
 	case 0, 1:
-		return tf("%s[%s] = %s", v.Name, key, g.value(v.T.Elem, 2))
+		return tf("%s[%s] = %s", v.Name, key, g.boundedValue(v.T.Elem, 2))
 	case 2:
 		return tf("%s(%s, %s)", tl("delete", "删除", "delete"), v.Name, key)
 	case 3:
@@ -821,7 +838,7 @@ func (g *G) stMapOp() Tri {
 		if v.T.Elem.IsInt() {
 			return tf("%s[%s] += %s", v.Name, key, g.gen(v.T.Elem, 1).E)
 		}
-		return tf("%s[%s] = %s", v.Name, key, g.value(v.T.Elem, 2))
+		return tf("%s[%s] = %s", v.Name, key, g.boundedValue(v.T.Elem, 2))
 	}
 }
 
